@@ -592,7 +592,8 @@ def dynamic_explore(units, jobs, ctxm, mk_unit):
     from . import pool as P
 
     def fail(x, why):
-        return {"entry": x[2], "idx": x[2], "crash": why, "violated": {}, "obligations": [], "paths": 0, "wall": 0,
+        return {"entry": x[2], "idx": x[2], "crash": f"{why} [entry #{x[2]}, decision prefix {list(x[5])}]", "violated": {},
+                "obligations": [], "paths": 0, "wall": 0,
                 "cuts": [], "leftover": []}
 
     return P.run(_worker, units, jobs, deadline_s=3600, on_fail=fail,
